@@ -288,6 +288,37 @@ theorem deref_instid_spec (env : Env) (cx : Cx) (hq : env.q.derefInstErr = false
     | nil => rw [hn] at this; simp at this
     | cons a l => rw [hn] at h; simp at h
 
+/-- when the value denotes exactly one node `i` (valid data: list keys and leaf-list values are unique), `deref()` is exactly
+the node-set `{i}` — the node the instance-identifier refers to, RFC 7950 §10.3.1 -/
+theorem deref_instid_exact (env : Env) (cx : Cx) (hq : env.q.derefInstErr = false) (x : Ref) (rest : List Ref) (e : Elem)
+    (steps : List Yang.IStep) (i : Nat)
+    (he : env.doc.elem? x = some e) (ht : e.term = true) (hl : env.facts.lrefs.lookup (env.doc.spath x) = none)
+    (hi : env.facts.insts.contains (env.doc.spath x) = true) (hp : Yang.parseInst e.value = some steps)
+    (hd : Yang.Denotes env.doc 0 steps i) (hu : ∀ j, Yang.Denotes env.doc 0 steps j → j = i) :
+    callFn (N := N) env cx "deref" [.ns (x :: rest)] = .ok (.ns [2 * i]) := by
+  obtain ⟨r, hr, _, hlen, hall, hne⟩ := deref_instid_spec (N := N) env cx hq x rest e steps he ht hl hi hp
+  rw [hr]
+  match r, hlen, hall, hne ⟨i, hd⟩ with
+  | [], _, _, h => exact absurd rfl h
+  | [y], _, hall, _ =>
+    obtain ⟨j, hy, hj, _⟩ := hall y (by simp)
+    rw [hy, hu j hj]
+  | _ :: _ :: _, hlen, _, _ => simp at hlen
+
+/-- no node denoted, switch off (RFC 7950 §10.3.1): the empty node-set -/
+theorem deref_instid_none (env : Env) (cx : Cx) (hq : env.q.derefInstErr = false) (x : Ref) (rest : List Ref) (e : Elem)
+    (steps : List Yang.IStep)
+    (he : env.doc.elem? x = some e) (ht : e.term = true) (hl : env.facts.lrefs.lookup (env.doc.spath x) = none)
+    (hi : env.facts.insts.contains (env.doc.spath x) = true) (hp : Yang.parseInst e.value = some steps)
+    (hn : ∀ j, ¬ Yang.Denotes env.doc 0 steps j) :
+    callFn (N := N) env cx "deref" [.ns (x :: rest)] = .ok (.ns []) := by
+  obtain ⟨r, hr, _, _, hall, _⟩ := deref_instid_spec (N := N) env cx hq x rest e steps he ht hl hi hp
+  rw [hr]
+  match r, hall with
+  | [], _ => rfl
+  | y :: _, hall =>
+    obtain ⟨j, _, hj, _⟩ := hall y (by simp)
+    exact absurd hj (hn j)
 /-- what libyang does when the instance-identifier has no instance (switch F356 on; only `require-instance false` leaves and
 unvalidated data can be in that state): the evaluation fails with LY_EINVAL instead of returning the empty node-set -/
 theorem deref_instid_dangling (env : Env) (cx : Cx) (hq : env.q.derefInstErr = true) (x : Ref) (rest : List Ref)
@@ -324,6 +355,10 @@ private def exEnvI : Env :=
 example : Yang.parseInst exIid = some [{ mod := exM, name := [0x6c], keys := [([0x6b], [0x62])] }, { mod := exM, name := [0x76] }] := by rfl
 example : Yang.instDown exEnvI.doc [{ mod := exM, name := [0x6c], keys := [([0x6b], [0x62])] }, { mod := exM, name := [0x76] }] 0 = [6] := by rfl
 example : exEnvI.instTarget 14 = some [12] := by rfl
+example : ∀ j, j ∈ Yang.instDown exEnvI.doc [{ mod := exM, name := [0x6c], keys := [([0x6b], [0x62])] }, { mod := exM, name := [0x76] }] 0 → j = 6 := by
+  intro j hj
+  have h : Yang.instDown exEnvI.doc [{ mod := exM, name := [0x6c], keys := [([0x6b], [0x62])] }, { mod := exM, name := [0x76] }] 0 = [6] := by rfl
+  rw [h] at hj; simpa using hj
 example : exEnvI.facts.insts.contains (exEnvI.doc.spath 14) = true := by rfl
 
 private def exUn : List UMem := [.val (.int .int8 []), .enm [[0x6f, 0x6e, 0x65]], .str]
